@@ -612,6 +612,80 @@ def specRun [DecidableEq V] [RewardFn R V] (c : Config) (fl : Flags) (L : Learne
     (specInter c fl L s v).bind fun r1 =>
     (specRun c fl L r1.1 vs).map fun r2 => (r2.1, r1.2.1 ++ r2.2.1, r1.2.2 :: r2.2.2)
 
+/-! ## Spec of a batched evaluation
+
+A batch is handed to the learner as a whole: every row of the batch is predicted (rows in order, the learner state
+threaded through them) before anything of the batch is learned, then every row is scored (score-based IPS
+evaluation), then every row is learned, rows in order.  A batch-aware learner receives these as one call per phase
+with `Batch.List` arguments, a learner without batch support receives them one row at a time (SafeLearner's
+fallback); in both cases the sequence of row-level calls is the one below.  The documented per-interaction values
+(`learnArgsS`, `evalRewardS`, the row) are those of the un-batched spec. -/
+
+def predictS (L : Learner σ V) : σ → List (View V R) → σ × List (Pred V)
+  | s, [] => (s, [])
+  | s, v :: vs =>
+    let r := predictS L (L.predict s v.ctx v.acts).1 vs
+    (r.1, (L.predict s v.ctx v.acts).2 :: r.2)
+
+def scoreS (L : Learner σ V) : σ → List (View V R) → σ × List Rat
+  | s, [] => (s, [])
+  | s, v :: vs =>
+    let r := scoreS L (L.score s v.ctx v.acts v.offAct).1 vs
+    (r.1, (L.score s v.ctx v.acts v.offAct).2 :: r.2)
+
+def learnS (L : Learner σ V) : σ → List (View V R) → List (Option V × Option Rat × Option Rat × Dict V) → σ
+  | s, v :: vs, a :: as => learnS L (L.learn s v.ctx a.1 a.2.1 a.2.2.1 a.2.2.2) vs as
+  | s, _, _ => s
+
+def allSome {α : Type} : List (Option α) → Option (List α)
+  | [] => some []
+  | some a :: rest => (allSome rest).map (a :: ·)
+  | none :: _ => none
+
+def zip3With {α β γ δ : Type} (f : α → β → γ → δ) : List α → List β → List γ → List δ
+  | a :: as, b :: bs, c :: cs => f a b c :: zip3With f as bs cs
+  | _, _, _ => []
+
+/-- the row of one interaction of a batch: as `rowS`, except that the batched code path writes the
+probability cell whenever a prediction was made, `None` included -/
+def rowSB [DecidableEq V] [RewardFn R V] (c : Config) (fl : Flags) (np : Bool) (v : View V R) (p : Option (Pred V))
+    (er : Option Rat) : Option (Row V R) :=
+  (rewardsCellS c fl v).map fun rw =>
+    (if c.rcd "context" then [("context", Cell.val v.ctx)] else [])
+    ++ (if c.rcd "actions" && fl.hasActions then [("actions", Cell.acts v.acts)] else [])
+    ++ (if c.rcd "action" && c.eval != .none then [("action", Cell.val (p.map (·.action)))] else [])
+    ++ (if c.rcd "reward" && c.eval != .none then [("reward", Cell.num er)] else [])
+    ++ rw
+    ++ (if c.rcd "probability" && c.eval != .none && np then [("probability", Cell.num (p.bind (·.prob)))] else [])
+    ++ v.extras.map (fun kv => (kv.1, Cell.fld kv.2))
+
+/-- one batch as the property describes it -/
+def specChunk [DecidableEq V] [RewardFn R V] (c : Config) (fl : Flags) (L : Learner σ V) (s : σ) (vs : List (View V R)) :
+    Option (σ × List (Call V) × List (Row V R)) :=
+  let np := needPred c L.hasScore
+  let sb := c.eval == .ips && L.hasScore && !np
+  let pp := if np then predictS L s vs else (s, [])
+  let ps : List (Option (Pred V)) := if np then pp.2.map some else vs.map (fun _ => none)
+  let c1 := if np then vs.map (fun v => Call.predict v.ctx v.acts) else []
+  let qq := if sb then scoreS L pp.1 vs else (pp.1, [])
+  let scs : List (Option Rat) := if sb then qq.2.map some else vs.map (fun _ => none)
+  let c2 := if sb then vs.map (fun v => Call.score v.ctx v.acts v.offAct) else []
+  (if c.eval != .none then (allSome (zip3With (evalRewardS c) vs ps scs)).map (·.map some)
+   else some (vs.map (fun _ => none))).bind fun evals =>
+  (if c.learn != .none then allSome (List.zipWith (learnArgsS c) vs ps) else some []).bind fun args =>
+  (allSome (zip3With (rowSB c fl np) vs ps evals)).map fun rows =>
+    (learnS L qq.1 vs args,
+     c1 ++ c2 ++ List.zipWith (fun (v : View V R) a => Call.learn v.ctx a.1 a.2.1 a.2.2.1 a.2.2.2) vs args,
+     rows)
+
+/-- a batched evaluation as the property describes it: batches in order -/
+def specRunB [DecidableEq V] [RewardFn R V] (c : Config) (fl : Flags) (L : Learner σ V) :
+    σ → List (List (View V R)) → Option (σ × List (Call V) × List (Row V R))
+  | s, [] => some (s, [], [])
+  | s, ch :: rest =>
+    (specChunk c fl L s ch).bind fun r1 =>
+    (specRunB c fl L r1.1 rest).map fun r2 => (r2.1, r1.2.1 ++ r2.2.1, r1.2.2 ++ r2.2.2)
+
 /-! ## Well-formedness of an environment (the hypotheses of the refinement theorems) -/
 
 /-- field shapes of one interaction agree with the flags taken from the first interaction -/
